@@ -177,8 +177,10 @@ def check_inside_unit(chk, pid, sess, phi, bdd_str, name, signature='outside-uni
 def run_plain_family(chk, pid, which, phis, k_extra=0, entries=('ext_dirty',), signature='semantics', check_unit=False, group=12):
     """evaluate formulas one by one (each its own run) on the instances and check equivalence with the semantics"""
     for inst in instances(which):
-        for i in range(0, len(phis), group):
-            chunk = phis[i:i + group]
+        # only formulas whose wild-card / domain labels this instance provides context sets for
+        phis_i = [f for f in phis if not (S.labels(f)[0] | S.labels(f)[1]) - set(inst.ctx)]
+        for i in range(0, len(phis_i), group):
+            chunk = phis_i[i:i + group]
             k = max([S.quant_depth(f) for f in chunk] + [0]) + k_extra
             runs = [{'phis': [f], 'entry': entries[j % len(entries)]} for j, f in enumerate(chunk)]
             sess = Session(inst, k, runs)
